@@ -13,6 +13,7 @@
                       sane exactly when C10's `extOk` says so
 -/
 import FianoModel.Uefi.FaithfulNvarLemmas
+import FianoModel.Nvram.OverlapGuard
 
 namespace Fiano.NvFaithful
 open Fiano Fiano.Nvram
@@ -109,7 +110,7 @@ theorem isErased_replicate (pol : Nat) : ∀ (x : Bytes), isErased pol x = true 
 theorem store_partition (pol : Nat) (s : Store) (b : Bytes) (hf : NvF pol s b) (hle : s.fso ≤ s.gso) :
     b = (s.entries.map (·.buf)).flatten ++ List.replicate (s.gso - s.fso) (UInt8.ofNat pol) ++ s.guidStore.reverse.flatten ∧
     s.entries.map (·.offset) = entryOffsets s.entries 0 := by
-  obtain ⟨_, _, hT, hgso, hE⟩ := hf
+  obtain ⟨_, _, hT, hgso, hE, _⟩ := hf
   obtain ⟨_, _, h3, h4, _, h6⟩ := entries_tile pol b _ _ _ _ _ _ hE
   refine ⟨?_, h4⟩
   have h16 := hT.1
@@ -246,13 +247,22 @@ theorem guid_index_resolves (pol : Nat) (sb : Bytes) : ∀ (rest prev : List NVa
 /-- one entry of 29 bytes (GUID index 0, ASCII name "A", 16 content bytes) and nothing else -/
 def overlapStore : Bytes := [0x4e, 0x56, 0x41, 0x52, 0x1d, 0x00, 0xff, 0xff, 0xff, 0x82, 0x00, 0x41, 0x00, 0xa0, 0xa1, 0xa2, 0xa3, 0xa4, 0xa5, 0xa6, 0xa7, 0xa8, 0xa9, 0xaa, 0xab, 0xac, 0xad, 0xae, 0xaf]
 
-/-- `NewNVarStore` accepts it: the entry fills the store (`FreeSpaceOffset` = 29) and its GUID index 0
-    makes the last 16 bytes — the entry's own content — the GUID table (`GUIDStoreOffset` = 13) -/
-theorem overlap_witness :
+/-- the repaired `NewNVarStore` (fixes/C04-nvar-table-overlap.diff) refuses it: the entry fills the store
+    (`FreeSpaceOffset` = 29) and its GUID index 0 would make the last 16 bytes — the entry's own content —
+    the GUID table (`GUIDStoreOffset` = 13).  (Before the repair the store was accepted with exactly
+    these two offsets.) -/
+theorem overlap_refused :
     (match parseStore 0xFF overlapStore with
-     | .ok s => (s.fso, s.gso, s.entries.map (fun v => (v.offset, v.size, v.guid == content v)))
-     | .error _ => (0, 0, [])) = (29, 13, [(0, 29, true)]) := by
+     | .ok _ => false
+     | .error e => decide (e = Err.parse)) = true := by
   decide +kernel
+
+/-- with the repair the partition needs no hypothesis: every parsed store is entries ++ free space ++
+    reversed table -/
+theorem store_partition_parsed (pol : Nat) (b : Bytes) (s : Store) (hp : parseStore pol b = .ok s) :
+    b = (s.entries.map (·.buf)).flatten ++ List.replicate (s.gso - s.fso) (UInt8.ofNat pol) ++
+        s.guidStore.reverse.flatten :=
+  (store_partition pol s b (nv_faithful pol b s hp) (parseStore_fso_le_gso pol b s hp)).1
 
 /-! ### extended header -/
 
